@@ -155,3 +155,126 @@ theorem parseUintFull_cases (bits : Nat) (s : Str) :
     rw [h] at this; cases this
 
 end Cmd
+
+namespace Cmd
+
+theorem pow_facts (bits : Nat) (hb : 2 ≤ bits) : 2 ≤ 2 ^ (bits - 1) ∧ 2 ^ bits = 2 * 2 ^ (bits - 1) := by
+  obtain ⟨k, rfl⟩ : ∃ k, bits = k + 2 := ⟨bits - 2, by omega⟩
+  have h1 : k + 2 - 1 = k + 1 := by omega
+  rw [h1]
+  have h2 : 0 < 2 ^ k := Nat.pos_of_ne_zero (by simp)
+  constructor
+  · rw [Nat.pow_succ]; omega
+  · rw [Nat.pow_succ 2 (k + 1)]; omega
+
+/-- sign handled: `neg` says whether the text started with `-`; `body` is the text behind the sign -/
+def intOfBody (bits : Nat) (neg : Bool) (body : Str) : Int × Bool :=
+  match parseUintFull bits body with
+  | .syntax => (0, false)
+  | .range => if neg then (-((2 ^ (bits - 1) : Nat) : Int), false) else (((2 ^ (bits - 1) - 1 : Nat) : Int), false)
+  | .ok un =>
+    if !neg && 2 ^ (bits - 1) ≤ un then (((2 ^ (bits - 1) - 1 : Nat) : Int), false)
+    else if neg && 2 ^ (bits - 1) < un then (-((2 ^ (bits - 1) : Nat) : Int), false)
+    else ((if neg then -(un : Int) else (un : Int)), true)
+
+def intOfBodySpec (bits : Nat) (neg : Bool) (body : Str) : Option Int :=
+  match parseNat body with
+  | some n => if neg then (if n ≤ 2 ^ (bits - 1) then some (-(n : Int)) else none)
+              else (if n < 2 ^ (bits - 1) then some (n : Int) else none)
+  | none => none
+
+theorem intOfBody_ok (bits : Nat) (hb : 2 ≤ bits) (neg : Bool) (body : Str) (v : Int) :
+    intOfBody bits neg body = (v, true) ↔ intOfBodySpec bits neg body = some v := by
+  obtain ⟨hP2, hpow⟩ := pow_facts bits hb
+  unfold intOfBody intOfBodySpec
+  generalize hP : 2 ^ (bits - 1) = P at *
+  rcases parseUintFull_cases bits body with ⟨n, h1, h2, h3⟩ | ⟨h1, h2⟩
+  · rw [h1, h2]
+    simp only
+    cases neg
+    · simp only [Bool.not_false, Bool.true_and, Bool.false_and, Bool.false_eq_true, if_false, decide_eq_true_eq]
+      by_cases hn : P ≤ n
+      · have : ¬ n < P := by omega
+        simp [hn, this]
+      · have : n < P := by omega
+        simp [hn, this]
+    · simp only [Bool.not_true, Bool.false_and, Bool.true_and, Bool.false_eq_true, if_false, if_true, decide_eq_true_eq]
+      by_cases hn : P < n
+      · have : ¬ n ≤ P := by omega
+        simp [hn, this]
+      · have : n ≤ P := by omega
+        simp [hn, this]
+  · have hspec : (match parseNat body with
+        | some n => if neg then (if n ≤ P then some (-(n : Int)) else none) else (if n < P then some (n : Int) else none)
+        | none => none) = none := by
+      cases hpn : parseNat body with
+      | none => rfl
+      | some n =>
+        have := h2 n hpn
+        have h4 : ¬ n ≤ P := by omega
+        have h5 : ¬ n < P := by omega
+        cases neg <;> simp [h4, h5]
+    rw [hspec]
+    cases hres : parseUintFull bits body with
+    | ok n => exact absurd hres (h1 n)
+    | «syntax» => simp
+    | range => cases neg <;> simp
+
+end Cmd
+
+namespace Cmd
+
+theorem parseIntFull_eq (bits : Nat) (hb : 2 ≤ bits) (c : Nat) (r : Str) :
+    parseIntFull bits (c :: r) = intOfBody bits (decide (c = 45)) (if c = 43 ∨ c = 45 then r else c :: r) := by
+  obtain ⟨hP2, hpow⟩ := pow_facts bits hb
+  unfold parseIntFull intOfBody
+  simp only
+  generalize (if c = 43 ∨ c = 45 then r else c :: r) = body
+  cases parseUintFull bits body with
+  | «syntax» => rfl
+  | ok n =>
+    simp only
+    have e1 : ((2 : Int) ^ (bits - 1)) = ((2 ^ (bits - 1) : Nat) : Int) := by simp
+    rw [e1]
+    simp only [Int.ofNat_le, Int.ofNat_lt]
+    by_cases hc : c = 45 <;> simp [hc]
+  | range =>
+    simp only
+    have h1 : 2 ^ (bits - 1) ≤ 2 ^ bits - 1 := by omega
+    have h2 : 2 ^ (bits - 1) < 2 ^ bits - 1 := by omega
+    have i2 : ((2 : Int) ^ (bits - 1)) < (2 : Int) ^ bits - 1 := by
+      have a : ((2 ^ (bits - 1) : Nat) : Int) < ((2 ^ bits : Nat) : Int) - 1 := by omega
+      simpa using a
+    have i1 : ((2 : Int) ^ (bits - 1)) ≤ (2 : Int) ^ bits - 1 := Int.le_of_lt i2
+    by_cases hc : c = 45 <;> simp [hc, i1, i2]
+
+theorem parseInt_eq (bits : Nat) (c : Nat) (r : Str) :
+    parseInt bits (c :: r) = intOfBodySpec bits (decide (c = 45)) (if c = 43 ∨ c = 45 then r else c :: r) := by
+  by_cases h43 : c = 43
+  · subst h43
+    simp only [parseInt, intOfBodySpec, true_or, if_true]
+    cases parseNat r <;> simp
+  · by_cases h45 : c = 45
+    · subst h45
+      simp only [parseInt, intOfBodySpec, or_true, if_true]
+      cases parseNat r <;> simp
+    · have hb : (if c = 43 ∨ c = 45 then r else c :: r) = c :: r := by simp [h43, h45]
+      rw [hb]
+      unfold parseInt
+      split
+      · rename_i heq; cases heq
+      · rename_i heq; injection heq with e _; exact absurd e h43
+      · rename_i heq; injection heq with e _; exact absurd e h45
+      · simp only [intOfBodySpec, h45, decide_false, Bool.false_eq_true, if_false]
+        cases parseNat (c :: r) <;> simp
+
+/-- **the two transcriptions of `strconv.ParseInt` agree**: the scan-order parser with error values (`parseIntFull`, used for
+    what a failing `Set` stores) succeeds exactly where `parseInt` (used for every successful `Set`) does, with the same
+    value -/
+theorem parseIntFull_ok (bits : Nat) (hb : 2 ≤ bits) (s : Str) (v : Int) :
+    parseIntFull bits s = (v, true) ↔ parseInt bits s = some v := by
+  cases s with
+  | nil => simp [parseIntFull, parseInt]
+  | cons c r => rw [parseIntFull_eq bits hb, parseInt_eq, intOfBody_ok bits hb]
+
+end Cmd
